@@ -215,15 +215,6 @@ Fixpoint enc_pol (p : spol) : list N :=
 Definition rpol_is (r : rpol) (m : spol) : bool :=
   match r with RPol p => spol_eqb p m | RPanic => false end.
 
-Fixpoint cleaves_of (c : cpol) : list spol :=
-  match c with
-  | CUnsat | CTriv => []
-  | CKey k => [SKey k] | CAfter t => [SAfter t] | COlder t => [SOlder t]
-  | CSha256 h => [SSha256 h] | CHash256 h => [SHash256 h]
-  | CRipemd160 h => [SRipemd160 h] | CHash160 h => [SHash160 h]
-  | CAnd subs | COr subs | CThresh _ subs => flat_map cleaves_of subs
-  end.
-
 (* a counter-assignment (the leaves that are on) or None when the two tables agree *)
 Definition cex_equiv (p out : spol) : option (list spol) :=
   equiv_on (leaves_of p ++ leaves_of out) (fun rho => evalA rho p) (fun rho => evalA rho out).
